@@ -9,12 +9,12 @@ from .. import discsim, gens, harness, vloop
 from .. import refcodec as rc
 from ..devsim import SimDevice
 from ..model_ac import ModelAC
-from ..model_cloud import ModelCloud, creds_for
+from ..model_cloud import ModelCloud, ModelSmartHome, creds_for
 
 ID = "C19"
 LEVEL = "exploration"
 SHARDS = {"quick": 8, "thorough": 16}
-RULE = ("token leg: account/password of printable ASCII (incl. + & = % space) or a built-in region, a 48-bit device id, a token "
+RULE = ("token leg (every case runs against the NetHome Plus model cloud or against a model of the MSmartHome proxy API: JSON body, HMAC-SHA256 sign header over iot key + body + random, password and iampwd derivations, access-token header; optionally 2..5 further get_token calls for other ids run concurrently on the same cloud object and each must receive its own entry): account/password of printable ASCII (incl. + & = % space) or a built-in region, a 48-bit device id, a token "
         "list in which the matching entry is absent / first / middle / last among near-miss ids (prefix, suffix, case-flipped, one "
         "digit off), response field order shuffled, and a fault script per endpoint from {ok, timeout, HTTP 500/404, connect "
         "error, API error code}* up to and beyond the retry budget. Oracle: a model cloud that recomputes the signature from the "
@@ -37,15 +37,21 @@ def _near_misses(udpid: str) -> list:
 
 
 def check_token(case: dict):
-    from msmart.cloud import ApiError, CloudError, NetHomePlusCloud
+    from msmart.cloud import ApiError, CloudError, NetHomePlusCloud, SmartHomeCloud
     acct, pw = case.get("account"), case.get("password")
     region = case.get("region", "US")
-    accounts = dict(NetHomePlusCloud.CLOUD_CREDENTIALS.values())
+    smarthome = case.get("cloud") == "smarthome"
+    Cloud = SmartHomeCloud if smarthome else NetHomePlusCloud
+    LOGIN = "/mj/user/login" if smarthome else "/v1/user/login"
+    accounts = dict(Cloud.CLOUD_CREDENTIALS.values())
     if acct:
         accounts[acct] = pw
-    mc = ModelCloud(accounts)
+    mc = (ModelSmartHome if smarthome else ModelCloud)(accounts)
     mc.shuffle = case.get("shuffle", 0)
-    mc.fault_script = {k: list(v) for k, v in case.get("faults", {}).items()}
+    mc.fault_script = {(LOGIN if k == "/v1/user/login" else k): list(v) for k, v in case.get("faults", {}).items()}
+    # further token requests issued concurrently on the same cloud object (each for its own id)
+    others = [rc.udpid((case["id"] ^ (j * 0x010203)).to_bytes(6, "little")).hex() for j in range(1, 1 + case.get("concurrent", 0))] \
+        if not case.get("faults", {}).get("/v1/iot/secure/getToken") else []
     udpid = rc.udpid(case["id"].to_bytes(6, "little")).hex()
     want = None
     if case.get("tokenlist") is not None:
@@ -67,7 +73,7 @@ def check_token(case: dict):
 
     async def main(loop):
         try:
-            cloud = NetHomePlusCloud(region, account=acct, password=pw, get_async_client=mc.client_factory())
+            cloud = Cloud(region, account=acct, password=pw, get_async_client=mc.client_factory())
         except ValueError as e:
             res["ctor"] = e
             return
@@ -80,6 +86,8 @@ def check_token(case: dict):
             res["login"] = e
             res["other"] = True
         if res["login"] == "ok":
+            import asyncio
+            tasks = [asyncio.ensure_future(cloud.get_token(u)) for u in others]
             try:
                 res["token"] = await cloud.get_token(udpid)
             except CloudError as e:
@@ -87,6 +95,7 @@ def check_token(case: dict):
             except BaseException as e:
                 res["token_exc"] = e
                 res["other"] = True
+            res["others"] = await asyncio.gather(*tasks, return_exceptions=True)
 
     vloop.run(main)
     if "ctor" in res:
@@ -97,8 +106,11 @@ def check_token(case: dict):
     if mc.errors:
         return ("contract/" + mc.errors[0].split(":")[0].split("/")[-1] + "/" + mc.errors[0].split(": ")[1].split()[0],
                 f"model cloud rejected a request: {mc.errors[:3]}")
+    for u, r in zip(others, res.get("others", [])):
+        if isinstance(r, BaseException) or tuple(r) != creds_for(u):
+            return ("token/concurrent", f"a concurrent get_token({u}) on the same cloud object gave {r!r}")
     for path, n in mc.posts.items():
-        if n > 3:
+        if n > 3 + (len(others) if path.endswith("getToken") else 0):
             return ("retries", f"{n} POSTs of {path}")
     # expected outcome per endpoint from the fault scripts
     def outcome(path):
@@ -115,7 +127,9 @@ def check_token(case: dict):
 
     for path, key in (("/v1/user/login/id/get", "login"), ("/v1/user/login", "login"), ("/v1/iot/secure/getToken", "token")):
         o, n = outcome(path)
-        seen = mc.posts.get(path, 0)
+        seen = mc.posts.get(LOGIN if path == "/v1/user/login" else path, 0)
+        if path.endswith("getToken"):
+            seen -= len(others)
         if o != "ok":
             exc = res.get("login") if key == "login" else res.get("token_exc")
             if not isinstance(exc, CloudError):
@@ -255,7 +269,8 @@ def _run_one(ctx, case):
         tl = case.get("tokenlist")
         faults = case.get("faults", {})
         nt = bool(tl and len(tl) >= 2 and "match" in tl and tl.index("match") > 0) or any("timeout" in v[:2] for v in faults.values())
-        cls = "token/" + ("faults" if any(faults.values()) else "clean")
+        cls = "token/" + case.get("cloud", "nethome") + "/" + ("faults" if any(faults.values()) else "clean")
+        nt = nt or case.get("concurrent", 0) >= 2
     ctx.case(hash(json.dumps(case, sort_keys=True)), nt, cls=cls)
     ctx.sample(cls, case)
     return check_case(case)
@@ -271,8 +286,20 @@ def run(ctx) -> None:
         "id": gens.device_ids(48), "shuffle": st.integers(0, 1),
         "tokenlist": st.one_of(st.none(), st.lists(entry, max_size=6)),
         "faults": st.one_of(st.just({}), faults),
-    }, optional={"account": text, "password": text, "region": st.sampled_from(["US", "DE", "KR"])}).map(
+    }, optional={"account": text, "password": text, "region": st.sampled_from(["US", "DE", "KR"]), "cloud": st.sampled_from(["nethome", "smarthome"]),
+                 "concurrent": st.sampled_from([0, 2, 4])}).map(
         lambda c: c if ("account" in c) == ("password" in c) else {k: v for k, v in c.items() if k not in ("account", "password")})
+    # both cloud flavours x regions x concurrency, no faults
+    q = 0
+    for cloud in ("nethome", "smarthome"):
+        for region in ("US", "DE", "KR"):
+            for conc in (0, 2, 3, 5):
+                for tl in (None, ["match"], [3, "match", 1], [0, 1, 2]):
+                    q += 1
+                    if ctx.mine(q):
+                        case = {"id": 0x1A2B3C4D5E6F ^ (q * 0x10001), "shuffle": q % 2, "tokenlist": tl, "faults": {}, "region": region, "cloud": cloud, "concurrent": conc}
+                        ctx.check(case, lambda c: _run_one(ctx, c))
+    ctx.sweep("cloud flavour x region x concurrent requests x token list shapes", q, True)
     ctx.hyp("token", token_cases, lambda c: _run_one(ctx, c), ctx.n(3200, 160000))
     disc_cases = st.fixed_dictionaries({"leg": st.just("discovery"), "id": gens.device_ids(48).filter(lambda i: i.to_bytes(6, "little") != i.to_bytes(6, "big")),
                                         "endian": st.sampled_from(["little", "big"]), "port": st.sampled_from([6444, 6444, 7000])},
